@@ -100,6 +100,20 @@ REVIEWED = [
     ("consist/locomotive/locomotive_model.rs", "from_hash",
      'ensure!(params.is_empty(),"",format_dbg!(),params.keys())',
      "errorTextOnly", "keys printed in the error message; the decision is params.is_empty()"),
+    ("train/train_config.rs", "make_speed_limit_train_sim",
+     'Ok(SpeedLimitTrainSim::new(self.train_id.clone(),location_map.get(self.origin_id.as_ref().unwrap())'
+     '.with_context(||{anyhow!(format!("",format_dbg!(),self.origin_id.as_ref().unwrap(),location_map.keys()))})?,'
+     'location_map.get(self.destination_id.as_ref().unwrap()).with_context(||{anyhow!(format!("",format_dbg!(),'
+     'self.destination_id.as_ref().unwrap(),location_map.keys()))})?,self.loco_con.clone(),state,train_res,path_tpc,'
+     'fric_brake,save_interval,simulation_days,scenario_year))',
+     "errorTextOnly", "location_map.keys() is printed when the `get` by key failed; lookups are by key"),
+    ("train/train_config.rs", "make_speed_limit_train_sim_and_parts",
+     'let ts=SpeedLimitTrainSim::new(self.train_id.clone(),location_map.get(self.origin_id.as_ref().unwrap())'
+     '.with_context(||{anyhow!(format!("",format_dbg!(),self.origin_id.as_ref().unwrap(),location_map.keys()))})?,'
+     'location_map.get(self.destination_id.as_ref().unwrap()).with_context(||{anyhow!(format!("",format_dbg!(),'
+     'self.destination_id.as_ref().unwrap(),location_map.keys()))})?,self.loco_con.clone(),state,train_res.clone(),'
+     'path_tpc.clone(),fric_brake.clone(),save_interval,simulation_days,scenario_year)',
+     "errorTextOnly", "as above"),
     # ---- serialized map fields (order of entries in the emitted text only; content is a map)
     ("track/link/link_impl.rs", "struct Link",
      "pub speed_sets:HashMap<TrainType,SpeedSet>",
@@ -108,6 +122,9 @@ REVIEWED = [
      "pub n_cars_by_type:HashMap<String,u32>",
      "serdeMapOrder", "as above"),
     # ---- nohash IntMap / IntSet (identity hasher: no per-process seed)
+    ("meet_pass/train_disp/mod.rs", "struct TrainDisp",
+     "links_on_path:IntSet<LinkIdx>",
+     "seedlessHasher", "serialized in set order; the order is a function of the inserted LinkIdx values"),
     ("meet_pass/est_times/mod.rs", "add_new_join_paths",
      "for est_idx in est_idxs_push{est_join_paths_save.push(EstJoinPath::new(link_event_add.link_idx,*est_idx));}",
      "seedlessHasher",
@@ -292,6 +309,7 @@ def squash(s):
     """whitespace-free normal form (a single space is kept between two identifier characters)"""
     s = re.sub(r"\s+", " ", s.strip())
     s = re.sub(r"(?<![A-Za-z0-9_]) | (?![A-Za-z0-9_])", "", s)
+    s = re.sub(r",(?=[)\]}])", "", s)      # rustfmt's trailing commas
     return s
 
 
@@ -383,6 +401,10 @@ class File:
         self.line_starts = [0] + [m.end() for m in re.finditer("\n", text)]
         self.impls = []   # (start, end, self_type)
         self.fndefs = []
+        # `use path::X as Y;`  ->  renames[Y] = (path, X)
+        self.renames = {}
+        for m in re.finditer(r"([\w:]+)::(\w+)\s+as\s+(\w+)", self.code):
+            self.renames[m.group(3)] = (m.group(1), m.group(2))
 
     def line(self, pos):
         import bisect
@@ -711,7 +733,13 @@ class Typer:
         h = type_head(self.crate.expand(ty))
         if h == "Self" and self.fd.self_ty:
             h = type_head(self.fd.self_ty)
-        defs = self.crate.structs.get(h or "", [])
+        if h in self.f.renames:
+            path, orig = self.f.renames[h]
+            mod = [p for p in path.split("::") if p not in ("super", "crate", "self")]
+            defs = [d for d in self.crate.structs.get(orig, [])
+                    if not mod or mod[-1] in d.file.rel.replace(".rs", "").split("/")]
+        else:
+            defs = self.crate.structs.get(h or "", [])
         if len(defs) > 1:
             same = [d for d in defs if d.file is self.f]
             defs = same if len(same) == 1 else defs
@@ -897,115 +925,90 @@ class Typer:
 # --------------------------------------------------------------------------------------------------
 # statements
 # --------------------------------------------------------------------------------------------------
-def depth_array(code, a, b):
-    d = 0
-    out = {}
-    for k in range(a, b + 1):
-        c = code[k]
-        if c in ")]}":
-            d -= 1
-        out[k] = d
-        if c in "([{":
-            d += 1
-    return out
+CONTROL_KW = ("if", "else", "for", "while", "loop", "unsafe", "fn", "impl", "mod", "trait", "async", "const")
 
 
-def statement_span(code, body, pos):
-    """smallest statement of the fn body (a, b) containing pos: from the previous `;`/`{`/`}` at an
-    enclosing depth to the next `;` (or the brace closing the enclosing block)"""
-    a, b = body
-    dep = depth_array(code, a, b)
-    d0 = dep[pos]
-    # enclosing depth = depth of innermost enclosing BRACE block
-    # walk left
-    k = pos - 1
-    cur_min = d0
-    start = a + 1
-    while k > a:
+def block_header(code, o, lo):
+    """text between the previous `;` / `{` / `}` / unclosed `(` `[` `,` and the `{` at o"""
+    k = o - 1
+    while k > lo:
         c = code[k]
-        dk = dep[k]
-        cur_min = min(cur_min, dk if c not in "([{" else dk)
-        if c in ";" and dk <= cur_min:
-            start = k + 1
-            break
-        if c == "{" and dk < cur_min + (1 if dk < d0 else 0) and dk <= cur_min:
-            # an opening brace of an enclosing block
-            if dk < d0 or True:
-                # enclosing only if it is not closed before pos
-                try:
-                    e = match_close(code, k)
-                except ScanProblem:
-                    e = b
-                if e > pos:
-                    # closure / block body inside a call: keep going only if brace is a closure body inside parens
-                    if dk <= cur_min:
-                        start = k + 1
-                        break
-        if c == "}" and dk <= cur_min:
-            start = k + 1
+        if c in ")]":
+            k = match_open(code, k) - 1
+            continue
+        if c in ";{}([,":
             break
         k -= 1
-    # widen to the left while we are inside parentheses of an enclosing call/macro (argument position)
-    # -> restart from the opener's statement
-    lead = code[start:pos]
-    # walk right
-    k = pos
-    end = b
-    cur_min = d0
-    while k < b:
-        c = code[k]
-        dk = dep[k]
-        if c == ";" and dk <= cur_min:
-            end = k
-            break
-        if c in ")]}" and dk < cur_min:
-            cur_min = dk
-            if c == "}":
-                end = k
-                break
-        k += 1
-    return start, end
+    return code[k + 1:o]
+
+
+def is_stmt_block(code, o, lo):
+    """is the `{` at o the brace of a block of statements that stand on their own (fn / if / else / for /
+    while / loop / plain block), as opposed to a closure body, a match body, a match arm or a struct
+    literal (which belong to the statement around them)?"""
+    j = skip_ws_back(code, o - 1)
+    if j < 0:
+        return True
+    if code[j] == "|" or code[max(0, j - 1):j + 1] == "=>":
+        return False
+    hdr = block_header(code, o, lo).strip()
+    hdr = re.sub(r"^'\w+\s*:\s*", "", hdr)
+    first = re.match(r"^\w+", hdr)
+    if first and first.group(0) in CONTROL_KW:
+        return True
+    if re.search(r"\bmatch\b", hdr):
+        return False
+    if re.search(r"(?:^|[^\w])(?:[A-Z]\w*|Self)(?:\s*::\s*<[^{}]*>)?$", hdr) and not re.search(r"\bfn\b", hdr):
+        return False        # struct literal
+    return True
 
 
 def enclosing_statement(code, body, pos):
-    """statement containing pos, widened so that it starts at brace-block level (not inside an
-    argument list or a closure body nested in a call of the same statement)"""
+    """the statement containing pos: innermost enclosing block of statements, split at `;` and after
+    the closing brace of a nested block of statements"""
     a, b = body
-    s, e = statement_span(code, body, pos)
-    # widen while the statement start sits inside an unclosed paren/bracket of the fn body
-    guard = 0
-    while guard < 20:
-        guard += 1
-        # is there an unclosed '(' or '[' between the enclosing brace and s ?
-        k = s - 1
-        depth = 0
-        opener = None
-        while k > a:
-            c = code[k]
-            if c in ")]}":
-                depth += 1
-            elif c in "([{":
-                if depth == 0:
-                    opener = k
-                    break
-                depth -= 1
-            k -= 1
-        if opener is None or code[opener] == "{":
-            # a '{' : is it a closure / struct-literal / match body inside parens?  check what precedes the '{'
-            if opener is not None:
-                j = skip_ws_back(code, opener - 1)
-                prev = code[max(0, j - 1):j + 1]
-                if code[j] == "|" or prev == "=>" :
-                    s2, e2 = statement_span(code, body, opener)
-                    if (s2, e2) != (s, e) and s2 <= s:
-                        s, e = s2, max(e, e2)
-                        continue
+    stack = []
+    for k in range(a, pos):
+        c = code[k]
+        if c in "([{":
+            stack.append(k)
+        elif c in ")]}":
+            if stack:
+                stack.pop()
+    blk = a
+    for o in reversed(stack):
+        if code[o] == "{" and is_stmt_block(code, o, a):
+            blk = o
             break
-        s2, e2 = statement_span(code, body, opener)
-        if (s2, e2) == (s, e):
-            break
-        s, e = min(s, s2), max(e, e2)
-    return s, e
+    blk_end = match_close(code, blk)
+    start = blk + 1
+    k = blk + 1
+    while k < blk_end:
+        c = code[k]
+        if c in "([":
+            k = match_close(code, k) + 1
+            continue
+        if c == "{":
+            e = match_close(code, k)
+            if k <= pos <= e:
+                # pos is inside this nested (non-statement) block: it belongs to the current statement
+                k = e + 1
+                continue
+            stm = is_stmt_block(code, k, blk)
+            k = e + 1
+            if stm:
+                nxt = re.match(r"\s*(else\b|\.|\?|\)|,|;|as\b|[-+*/%&|^=<>!])", code[k:blk_end + 1])
+                if not nxt:
+                    if k > pos:
+                        return start, k
+                    start = k
+            continue
+        if c == ";":
+            if k >= pos:
+                return start, k
+            start = k + 1
+        k += 1
+    return start, blk_end
 
 
 # --------------------------------------------------------------------------------------------------
